@@ -180,6 +180,7 @@ def _neutralise_mixed_case_index(case):
 
 
 _CTRLCH = _re.compile(r"[\x00-\x1f\x7f-\x9f]")
+_EDGES = _re.compile(r"^[\s\x00-\x1f\x7f-\x9f]+|[\s\x00-\x1f\x7f-\x9f]+$")
 
 
 def _ctrl_inside_redirect(case):
@@ -187,7 +188,7 @@ def _ctrl_inside_redirect(case):
     from ural import infer_redirection
     for k in ("u", "v"):
         x = case.get(k)
-        if x and _CTRLCH.search(x.strip(" \t\r\n\x0b\x0c")):
+        if x and _CTRLCH.search(_EDGES.sub("", x)):      # only a control character *inside* the URL: those around it are removed before anything is inferred
             cleaned = _CTRLCH.sub("", x).strip()
             if infer_redirection(cleaned) != cleaned or infer_redirection(x) != x:
                 return True
@@ -301,12 +302,25 @@ def _corner_shapes(acc, shard, nshards, seed, tier):
         if idx % nshards != shard:
             continue
         acc.check({"kind": "pair", "u": u, "v": v, "family": "corner", "transforms": ["index-page-case"], "options": o}, _pair_nt, ["corner:mixed-case-index-page"])
+    # every scheme with every port spelling (own default, another scheme's default, empty, zero-padded): the three functions must agree on which
+    # ports are droppable, and the platform routes must be recognized behind any port spelling
+    for scheme, port, host, tail, o in itertools.product(SCHEME_FORMS, PORT_FORMS, ["h.com", "facebook.com", "www.youtube.com"],
+                                                         ["", "/x", "/zuck/posts/10157?comment_id=4", "/watch?v=dQw4w9WgXcQ&t=3"], optsets):
+        idx += 1
+        if idx % nshards != shard:
+            continue
+        u = scheme + host + port + tail
+        acc.check({"kind": "single", "u": u, "options": o}, lambda c: c.pop("_changed", True), ["corner:scheme-port"])
+        if port:
+            acc.check({"kind": "pair", "u": u, "v": scheme + host + tail, "family": "corner", "transforms": ["default-port"], "options": o}, _pair_nt, ["corner:scheme-port"])
 
 
 PLATFORM_SPELLINGS = ["https://facebook.com//zuck//posts//10158", "https://www.facebook.com/zuck/./posts/../posts/10158", "https://FACEBOOK.com:443/zuck/posts/10158/",
                       "https://facebook.com/zuck/%70osts/10158", "http://m.facebook.com//groups//123456789//permalink//55/", "https://www.youtube.com//watch?v=dQw4w9WgXcQ&foo=bar",
                       "https://www.youtube.com/channel//UCabcdefghijklmnopqrstuv/videos", "https://youtube.com/./watch?v=dQw4w9WgXcQ", "https://youtu.be//dQw4w9WgXcQ",
                       "https://www.youtube.com/%77atch?v=dQw4w9WgXcQ", "https://www.facebook.com//photo.php?fbid=10&set=a.2", "https://facebook.com/zuck//videos/77/?x=1"]
+SCHEME_FORMS = ["http://", "https://", "HTTP://", "ftp://", "ws://", "wss://", "git://", "//", ""]
+PORT_FORMS = ["", ":", ":21", ":021", ":80", ":080", ":443", ":000443", ":8080", ":22", ":0", ":65535"]
 SORT_TIE_PAIRS = [("http://example.com/list?Tag=&tag", "http://example.com/list?tag&Tag="), ("http://a.com/?K&k=&K=", "http://a.com/?K=&k=&K"),
                   ("http://a.com/p?A=1&a=1&A", "http://a.com/p?A&a=1&A=1"), ("https://b.org/?x=&X&x", "https://b.org/?x&X&x=")]
 INDEX_CASE_PAIRS = [("http://a.com/x/INDEX.HTML/index.html", "http://a.com/x/INDEX.HTML"), ("https://b.org/Index.php/amp/", "https://b.org/Index.php"),
